@@ -1319,6 +1319,8 @@ class MovAdr(X86Instruction):
 class Cdqe(X86Instruction):
     """Convert with sign extension to double size"""
 
+    implicit_uses = (eax,)
+    implicit_defs = (rax,)
     syntax = Syntax(["cdqe"])
     tokens = [RexToken, OpcodeToken]
     patterns = {"w": 1, "opcode": 0x98}
@@ -1327,6 +1329,8 @@ class Cdqe(X86Instruction):
 class Cwd(X86Instruction):
     """Convert ax with sign extension to double size into dx:ax"""
 
+    implicit_uses = (ax,)
+    implicit_defs = (dx,)
     syntax = Syntax(["cwd"])
     tokens = [PrefixToken, OpcodeToken]
     patterns = {"prefix": 0x66, "opcode": 0x99}
@@ -1335,6 +1339,8 @@ class Cwd(X86Instruction):
 class Cdq(X86Instruction):
     """Convert with sign extension to double size into edx:eax"""
 
+    implicit_uses = (eax,)
+    implicit_defs = (edx,)
     syntax = Syntax(["cdq"])
     tokens = [RexToken, OpcodeToken]
     patterns = {"w": 0, "opcode": 0x99}
@@ -1343,6 +1349,8 @@ class Cdq(X86Instruction):
 class Cqo(X86Instruction):
     """Convert with sign extension to double size into rdx:rax"""
 
+    implicit_uses = (rax,)
+    implicit_defs = (rdx,)
     syntax = Syntax(["cqo"])
     tokens = [RexToken, OpcodeToken]
     patterns = {"w": 1, "opcode": 0x99}
